@@ -246,23 +246,25 @@ Definition decl_region (sp : dspell) (d : adecl) : nat :=
   end.
 
 (* ------------------------------------------------------------------ well-formedness *)
-Definition balanced_go (x : str) : bool :=
-  (fix go (x : str) (l b : nat) : bool :=
-     match x with
-     | [] => (l =? 0) && (b =? 0)
-     | c :: r =>
-       if Ascii.eqb c c_lpar then go r (S l) b
-       else if Ascii.eqb c c_rpar then match l with S l' => go r l' b | O => false end
-       else if Ascii.eqb c c_lbr then go r l (S b)
-       else if Ascii.eqb c c_rbr then match b with S b' => go r l b' | O => false end
-       else go r l b
-     end) x 0 0.
+(* parentheses and brackets nest properly from the open counts (l, b) *)
+Fixpoint bal (l b : nat) (x : str) : bool :=
+  match x with
+  | [] => (l =? 0) && (b =? 0)
+  | c :: r =>
+    if Ascii.eqb c c_lpar then bal (S l) b r
+    else if Ascii.eqb c c_rpar then match l with S l' => bal l' b r | O => false end
+    else if Ascii.eqb c c_lbr then bal l (S b) r
+    else if Ascii.eqb c c_rbr then match b with S b' => bal l b' r | O => false end
+    else bal l b r
+  end.
+Definition balanced_go (x : str) : bool := bal 0 0 x.
 
-(* a kind / length expression: not empty, no white space, no quote, balanced *)
+(* a kind / length expression: not empty, no white space, no quote, no "=", balanced *)
 Definition expr_ok (x : str) : bool :=
   match x with
   | [] => false
-  | _ => negb (existsb is_space x) && negb (existsb is_quote x) && balanced_go x
+  | _ => negb (existsb is_space x) && negb (existsb is_quote x) && negb (existsb (Ascii.eqb c_eq) x)
+         && balanced_go x
   end.
 Definition ident_ok (x : str) : bool :=
   match x with c :: _ => is_alpha c && forallb is_word x | [] => false end.
@@ -275,4 +277,195 @@ Definition type_ok (sp : tspell) (t : atype) : bool :=
   | AChar (Some l) None => expr_ok l && negb (has_comma l)
   | AChar (Some l) (Some k) => expr_ok l && expr_ok k && negb (has_comma l) && negb (has_comma k)
   | ADerived _ n => ident_ok n
+  end.
+
+(* ------------------------------------------------------------------ program units *)
+Record aunit := mkau {
+  au_kind : unit_kind;
+  au_name : str;
+  au_prefix : list str;             (* pure, elemental, recursive, impure, non_recursive, module *)
+  au_args : list str;               (* dummy arguments, in order *)
+  au_result : option str;           (* RESULT clause *)
+  au_rettype : option atype;        (* result type when it is written in the prefix *)
+  au_decls : list adecl             (* specification part *)
+}.
+
+Record uspell := mkus {
+  us_kwcase : list bool;            (* letter case of subroutine / function / result / end / prefixes *)
+  us_decls : list dspell;           (* spelling of declaration i (the last one is reused) *)
+  us_stmt : list bool;              (* attributes of declaration i as separate attribute statements *)
+  us_dimstmt : list bool;           (* array specs of declaration i as a DIMENSION statement *)
+  us_stmt_dcolon : bool;            (* "::" in attribute statements *)
+  us_rettype : tspell;              (* spelling of the result type in the prefix *)
+  us_argblank : nat                 (* blanks around the dummy argument names *)
+}.
+
+Definition plain_tspell : tspell := mkts [] [] 0 0 0 0 0 1.
+Definition plain_dspell : dspell := mkds plain_tspell true false [] 0 false 1.
+
+Fixpoint nth_or_last {A} (l : list A) (n : nat) (d : A) : A :=
+  match l, n with
+  | [], _ => d
+  | [x], _ => x
+  | x :: _, O => x
+  | _ :: l', S n' => nth_or_last l' n' d
+  end.
+
+Definition unit_word (k : unit_kind) : str :=
+  match k with UModule => s "module" | USubroutine => s "subroutine" | UFunction => s "function" end.
+
+Definition render_header (sp : uspell) (u : aunit) : str :=
+  let kw := recase (us_kwcase sp) in
+  let b := blanks (us_argblank sp) in
+  match au_kind u with
+  | UModule => kw (s "module") ++ [c_sp] ++ au_name u
+  | k =>
+    concat (map (fun p => kw p ++ [c_sp]) (au_prefix u)) ++
+    (match au_rettype u with Some t => render_type (us_rettype sp) t ++ [c_sp] | None => [] end) ++
+    kw (unit_word k) ++ [c_sp] ++ au_name u ++ [c_lpar] ++
+    join [c_comma] (map (fun a => b ++ a ++ b) (au_args u)) ++ [c_rpar] ++
+    (match au_result u with
+     | Some r => [c_sp] ++ kw (s "result") ++ [c_lpar] ++ r ++ [c_rpar]
+     | None => []
+     end)
+  end.
+
+Definition render_end (sp : uspell) (u : aunit) : str :=
+  recase (us_kwcase sp) (s "end") ++ [c_sp] ++ recase (us_kwcase sp) (unit_word (au_kind u)) ++ [c_sp] ++ au_name u.
+
+Definition has_dims (d : adecl) : bool := existsb (fun e => match e_dim e with Some _ => true | None => false end) (d_entities d).
+
+(* the declaration that remains when attributes (and array specs) are written as statements *)
+Definition strip_decl (stmt dimstmt : bool) (d : adecl) : adecl :=
+  let ents := map (fun e => mkent (e_name e) (if dimstmt then None else e_dim e) (e_points e)
+                                  (if stmt && d_parameter d then None else e_init e)) (d_entities d) in
+  if stmt then mkdecl (d_type d) false None false [] ents
+  else mkdecl (d_type d) (d_parameter d) (d_intent d) (d_optional d) (d_attrs d) ents.
+
+Definition stmt_sep (sp : uspell) : str := if us_stmt_dcolon sp then s " :: " else [c_sp].
+Definition names_of (d : adecl) : str := join (s ", ") (map e_name (d_entities d)).
+
+Definition attr_statements (sp : uspell) (dsp : dspell) (d : adecl) : list str :=
+  (if d_parameter d
+   then [recase (ds_acase dsp) (s "parameter") ++ s " (" ++
+         join (s ", ") (map (fun e => e_name e ++ s " = " ++
+                                      match e_init e with Some ts => render_init dsp ts | None => [] end)
+                            (d_entities d)) ++ s ")"]
+   else []) ++
+  (match d_intent d with Some i => [render_intent dsp i ++ stmt_sep sp ++ names_of d] | None => [] end) ++
+  (if d_optional d then [recase (ds_acase dsp) (s "optional") ++ stmt_sep sp ++ names_of d] else []) ++
+  map (fun a => recase (ds_acase dsp) a ++ stmt_sep sp ++ names_of d) (d_attrs d).
+
+Definition dim_statement (sp : uspell) (dsp : dspell) (d : adecl) : list str :=
+  if has_dims d then
+    [recase (ds_acase dsp) (s "dimension") ++ stmt_sep sp ++
+     join (s ", ") (map (fun e => e_name e ++ match e_dim e with Some x => x | None => [] end)
+                        (filter (fun e => match e_dim e with Some _ => true | None => false end) (d_entities d)))]
+  else [].
+
+Fixpoint render_body (sp : uspell) (ds : list adecl) (i : nat) : list str :=
+  match ds with
+  | [] => []
+  | d :: ds' =>
+    let dsp := nth_or_last (us_decls sp) i plain_dspell in
+    let stmt := nth i (us_stmt sp) false in
+    let dimstmt := nth i (us_dimstmt sp) false && has_dims d in
+    (render_decl dsp (strip_decl stmt dimstmt d)
+     :: (if dimstmt then dim_statement sp dsp d else [])
+     ++ (if stmt then attr_statements sp dsp d else []))
+    ++ render_body sp ds' (S i)
+  end.
+
+Definition render_unit (sp : uspell) (u : aunit) : str * list str * str :=
+  (render_header sp u, render_body sp (au_decls u) 0, render_end sp u).
+
+(* ---- what must be reported *)
+Fixpoint find_var (name : str) (vars : list var) : option var :=
+  match vars with
+  | [] => None
+  | v :: vs => if seqb name (v_name v) then Some v else find_var name vs
+  end.
+
+Definition spec_implicit (name : str) : var :=
+  mkvar name (match name with
+              | c :: _ => if existsb (Ascii.eqb (lower_ch c)) (s "ijklmn") then s "integer" else s "real"
+              | [] => s "real"
+              end) None None None [] [] false (s "public") false false None [].
+
+Definition spec_unit (u : aunit) : unit_out :=
+  let all := concat (map (fun d => spec_vars d (s "public")) (au_decls u)) in
+  let args := map (fun a => match find_var a all with Some v => v | None => spec_implicit a end) (au_args u) in
+  let rname := match au_result u with Some r => r | None => au_name u end in
+  let ret :=
+    match au_kind u with
+    | UFunction =>
+      Some (match au_rettype u with
+            | Some t => let '(vt, k, l, p) := spec_ptype t in
+                        mkvar rname vt k l p [] [] false (s "public") false false None []
+            | None => match find_var rname all with Some v => v | None => spec_implicit rname end
+            end)
+    | _ => None
+    end in
+  let is_arg (v : var) := sin (v_name v) (au_args u) in
+  let is_ret (v : var) := match au_kind u, au_rettype u with
+                          | UFunction, None => seqb (v_name v) rname
+                          | _, _ => false
+                          end in
+  mkuo (filter (fun w => sin w (au_prefix u)) proc_keywords)
+       args ret (filter (fun v => negb (is_arg v) && negb (is_ret v)) all).
+
+(* ---- regions of the recorded findings at unit level:
+    8 OPTIONAL statement; 9 PARAMETER statement; 10 DIMENSION statement; 11 INTENT(IN OUT) statement;
+   12 double precision / double complex in a function prefix; 13 capitals in a prefix type (lower-cased);
+   14 a procedure keyword inside a prefix type; 15 attribute statements for the result variable *)
+Definition has_upper (x : str) : bool := existsb is_upper x.
+Definition type_text (t : atype) : str :=
+  match t with
+  | ANum _ (Some k) => k
+  | AChar l k => (match l with Some x => x | None => [] end) ++ (match k with Some x => x | None => [] end)
+  | ADerived _ n => n
+  | _ => []
+  end.
+
+Definition prefix_region (sp : uspell) (u : aunit) : nat :=
+  match au_kind u, au_rettype u with
+  | UFunction, Some t =>
+    if existsb (fun w => contains w (lower (type_text t))) proc_keywords then 14
+    else match t with
+         | ADouble | ADoubleComplex => 12
+         | _ => if has_upper (type_text t) then 13
+                else match type_region (us_rettype sp) t with 2 => 0 | r => r end   (* blanks are removed *)
+         end
+  | _, _ => 0
+  end.
+
+Fixpoint body_region (sp : uspell) (u : aunit) (ds : list adecl) (i : nat) : nat :=
+  match ds with
+  | [] => 0
+  | d :: ds' =>
+    let dsp := nth_or_last (us_decls sp) i plain_dspell in
+    let stmt := nth i (us_stmt sp) false in
+    let dimstmt := nth i (us_dimstmt sp) false && has_dims d in
+    let rname := match au_result u with Some r => r | None => au_name u end in
+    let declares_result :=
+      match au_kind u, au_rettype u with
+      | UFunction, None => existsb (fun e => seqb (e_name e) rname) (d_entities d)
+      | _, _ => false
+      end in
+    let here :=
+      if declares_result && ((stmt && (d_parameter d || d_optional d
+                                       || match d_intent d with Some _ => true | None => false end
+                                       || match d_attrs d with [] => false | _ => true end)) || dimstmt) then 15
+      else if stmt && d_optional d then 8
+      else if stmt && d_parameter d then 9
+      else if dimstmt then 10
+      else if stmt && ds_inout_blank dsp && match d_intent d with Some IInOut => true | _ => false end then 11
+      else decl_region dsp (strip_decl stmt dimstmt d) in
+    match here with 0 => body_region sp u ds' (S i) | r => r end
+  end.
+
+Definition unit_region (sp : uspell) (u : aunit) : nat :=
+  match prefix_region sp u with
+  | 0 => body_region sp u (au_decls u) 0
+  | r => r
   end.
